@@ -21,22 +21,23 @@ SPEC = dict(
                  'g++ 12 ASan/UBSan/LSan and valgrind memcheck report what they claim to report'],
     legs=[
         Leg('regress', 'h_tunnel', 'asan', opts={'mode': 'regress'}, quick=1, thorough=1, workers=1, leaks=True, min_cases=1),
-        Leg('exh', 'h_tunnel', 'asan', opts={'mode': 'exh'}, quick=6000, thorough=300000, workers=16, leaks=True),
-        Leg('sampled', 'h_tunnel', 'asan', opts={'mode': 'sampled'}, quick=30000, thorough=1500000, workers=16, leaks=True),
-        Leg('memcheck', 'h_tunnel', 'plain', opts={'mode': 'sampled'}, quick=800, thorough=16000, workers=16, valgrind=True),
-        Leg('memcheck_exh', 'h_tunnel', 'plain', opts={'mode': 'exh'}, quick=160, thorough=3200, workers=16, valgrind=True),
+        Leg('exh', 'h_tunnel', 'asan', opts={'mode': 'exh'}, quick=5000, thorough=300000, workers=16, leaks=True),
+        Leg('sampled', 'h_tunnel', 'asan', opts={'mode': 'sampled'}, quick=24000, thorough=1500000, workers=16, leaks=True),
+        Leg('memcheck', 'h_tunnel', 'plain', opts={'mode': 'sampled'}, quick=480, thorough=16000, workers=16, valgrind=True),
+        Leg('memcheck_exh', 'h_tunnel', 'plain', opts={'mode': 'exh'}, quick=96, thorough=3200, workers=16, valgrind=True),
     ],
-    min_stats={'exh': {'fault_scripts': 1000000, 'scripts_permutation': 350000, 'scripts_loss_subset': 50000, 'scripts_one_duplicate': 50000,
-                       'scripts_product': 600000, 'cases_whole_sequence_exhaustive': 1400, 'cases_mtu_min': 130, 'cases_mtu_min_plus_1': 130,
-                       'cases_mtu_min_plus_2': 130, 'cases_mtu_64': 110, 'cases_mtu_1500': 110, 'cases_senders_2': 1000, 'cases_senders_3': 1000,
-                       'cases_kind_tunnel': 1500, 'cases_kind_mini': 700, 'cases_kind_tunnel+slave': 250, 'cases_kind_mini+slave': 250,
-                       'cases_mini_zlib': 600, 'mini_packets_deflated': 700, 'mini_messages_fitting_the_mtu_exactly': 250,
-                       'mini_cases_with_several_chunks_per_packet': 200, 'tunnel_messages_fragmented': 5000,
-                       'tunnel_packets_with_several_chunks': 1400, 'tunnel_messages_ending_exactly_at_packet_end': 1400,
-                       'messages_sent_after_id_wraparound': 250, 'cases_equal_size_messages': 1500, 'messages_lost_to_faults': 1000000,
-                       'messages_delivered_under_faults': 4000000, 'write_holds': 1500},
-               'sampled': {'fault_scripts': 130000, 'identity_scripts': 35000, 'cases_mtu_min': 600, 'cases_mtu_1500': 500, 'cases_senders_3': 5000,
-                           'tunnel_messages_fragmented': 100000, 'messages_sent_after_id_wraparound': 10000, 'mini_packets_deflated': 15000,
-                           'mini_messages_fitting_the_mtu_exactly': 6000, 'max_packets_in_a_case': 500, 'messages_delivered_under_faults': 1000000,
-                           'messages_lost_to_faults': 600000, 'write_holds': 40000}},
+    min_stats={'exh': {'fault_scripts': 800000, 'scripts_permutation': 280000, 'scripts_loss_subset': 40000, 'scripts_one_duplicate': 40000,
+                       'scripts_product': 480000, 'cases_whole_sequence_exhaustive': 1120, 'cases_mtu_min': 104, 'cases_mtu_min_plus_1': 104,
+                       'cases_mtu_min_plus_2': 104, 'cases_mtu_64': 88, 'cases_mtu_1500': 88, 'cases_senders_2': 800, 'cases_senders_3': 800,
+                       'cases_kind_tunnel': 1200, 'cases_kind_mini': 560, 'cases_kind_tunnel+slave': 200, 'cases_kind_mini+slave': 200,
+                       'cases_mini_zlib': 480, 'mini_packets_deflated': 560, 'mini_messages_fitting_the_mtu_exactly': 200,
+                       'mini_cases_with_several_chunks_per_packet': 160, 'tunnel_messages_fragmented': 4000,
+                       'tunnel_packets_with_several_chunks': 1120, 'tunnel_messages_ending_exactly_at_packet_end': 1120,
+                       'messages_sent_after_id_wraparound': 200, 'cases_equal_size_messages': 1200, 'messages_lost_to_faults': 800000,
+                       'messages_delivered_under_faults': 3200000, 'write_holds': 1200},
+               'sampled': {'fault_scripts': 97500, 'identity_scripts': 26250, 'cases_mtu_min': 450, 'cases_mtu_1500': 375, 'cases_senders_3': 3750,
+                           'tunnel_messages_fragmented': 75000, 'messages_sent_after_id_wraparound': 7500, 'mini_packets_deflated': 11250,
+                           'mini_messages_fitting_the_mtu_exactly': 4500, 'max_packets_in_a_case': 500, 'messages_delivered_under_faults': 750000,
+                           'messages_lost_to_faults': 450000, 'write_holds': 30000,
+                           'messages_sent_after_id_wraparound_by_setter': 3000, 'mini_packets_sent_after_packet_id_wraparound': 3750}},
 )
